@@ -1,5 +1,4 @@
 import SaModel.Spec.Interp
-import SaModel.Build.Builder
 import SaModel.Read.Cast
 import SaModel.Read.Label
 /-
@@ -10,7 +9,12 @@ field, wrong element count, undeclared variant, non-string key).  C18 demands th
 serialization error is one of these — never a sibling, never merely an ancestor of a deeper failure.
 
 Path conventions (as the crate assembles them): root `$`; struct child `{path}.{name}` (raw name); list / map /
-union children through `ChildName` (empty name ⇒ `<empty>`); dictionary `.key` / `.value`.
+union children through `ChildName` (empty name ⇒ `<empty>`: `segName`); dictionary `.key` / `.value`.
+
+Independence: this file imports no `Build/*` module.  The string form of a scalar is `Spec.textOf`, the string a map key
+stands for `Spec.keyOf` (Spec/Leaf.lean), the path segment of a child `segName` (below); the bridges to the builder model's
+`scalarToString`, `keyStr`, `childName` are in `Lemmas/C01LeafBridge.lean` and `Lemmas/C18SpecBridge.lean`.  (`Ext`, the
+functions of other crates both sides are parameterised by, lives in `Data/Ext.lean` under the namespace `SaModel.Build`.)
 
 Dictionary columns (reading corrected 2026-09-29).  C18 names `dictionary` among the kinds of PARENT of the innermost
 failing field: the key and the value child of a dictionary column are positions of the schema (`{path}.key` with the key
@@ -29,6 +33,11 @@ index to its key builder) that child IS the innermost field being processed.  So
 -/
 namespace SaModel.Spec
 open SaModel SaModel.Build
+
+/-- the segment a child contributes to a path where the crate goes through `ChildName` (list / map / union children, every
+reader child): an empty name is shown as `<empty>`.  A definition of the specification (independent of the builder
+model's `Build.childName` and the reader model's `Read.rchildName`; bridge `segName_eq`, Lemmas/C18SpecBridge.lean). -/
+def segName (s : String) : String := if s.isEmpty then "<empty>" else s
 
 def dupKeys : List String → Bool
   | [] => false
@@ -60,7 +69,7 @@ form on to its value child, which is then the innermost field being processed -/
 def blameScalarAt (ext : Ext) (path : String) (dt : DataType) (x : SVal) : List String :=
   match dt with
   | .dictionary _ v =>
-    match scalarToString ext x with
+    match textOf ext x with
     | some _ => [blameDictStr (path ++ ".value") v]
     | none => [path]
   | _ => [path]
@@ -73,10 +82,10 @@ def blameDT (ext : Ext) (path : String) (dt : DataType) (nullable : Bool) (md : 
     if (interpDT ext dt nullable md (.seq xs)).isOk then [] else
     match dt with
     | .list (.mk cn cdt cnl cmd) | .largeList (.mk cn cdt cnl cmd) =>
-      let inner := blameAll ext (path ++ "." ++ childName cn) cdt cnl cmd xs
+      let inner := blameAll ext (path ++ "." ++ segName cn) cdt cnl cmd xs
       if inner.isEmpty then [path] else inner
     | .fixedSizeList (.mk cn cdt cnl cmd) n =>
-      let inner := blameAll ext (path ++ "." ++ childName cn) cdt cnl cmd xs
+      let inner := blameAll ext (path ++ "." ++ segName cn) cdt cnl cmd xs
       let own := (xs.length : Int) != n
       (if own || inner.isEmpty then [path] else []) ++ inner
     | _ => [path]
@@ -84,10 +93,10 @@ def blameDT (ext : Ext) (path : String) (dt : DataType) (nullable : Bool) (md : 
     if (interpDT ext dt nullable md (.tuple xs)).isOk then [] else
     match dt with
     | .list (.mk cn cdt cnl cmd) | .largeList (.mk cn cdt cnl cmd) =>
-      let inner := blameAll ext (path ++ "." ++ childName cn) cdt cnl cmd xs
+      let inner := blameAll ext (path ++ "." ++ segName cn) cdt cnl cmd xs
       if inner.isEmpty then [path] else inner
     | .fixedSizeList (.mk cn cdt cnl cmd) n =>
-      let inner := blameAll ext (path ++ "." ++ childName cn) cdt cnl cmd xs
+      let inner := blameAll ext (path ++ "." ++ segName cn) cdt cnl cmd xs
       let own := (xs.length : Int) != n
       (if own || inner.isEmpty then [path] else []) ++ inner
     | .struct fs =>
@@ -117,8 +126,8 @@ def blameDT (ext : Ext) (path : String) (dt : DataType) (nullable : Bool) (md : 
       let own := structOwnFails fs.toList keys || !(keysAreStrings es).isOk
       (if own || (inner.isEmpty && missingChild.isEmpty) then [path] else []) ++ inner ++ missingChild
     | .map (.mk en (.struct (.cons (.mk kn kdt knl kmd) (.cons (.mk vn vdt vnl vmd) _))) _ _) _ =>
-      let base := path ++ "." ++ childName en
-      let inner := blameEntriesMap ext (base ++ "." ++ childName kn) kdt knl kmd (base ++ "." ++ childName vn) vdt vnl vmd es
+      let base := path ++ "." ++ segName en
+      let inner := blameEntriesMap ext (base ++ "." ++ segName kn) kdt knl kmd (base ++ "." ++ segName vn) vdt vnl vmd es
       if inner.isEmpty then [path] else inner
     | _ => [path]
   | .mapRaw ops =>
@@ -134,8 +143,8 @@ def blameDT (ext : Ext) (path : String) (dt : DataType) (nullable : Bool) (md : 
       let own := structOwnFails fs.toList keys || !(opsKeysAreStrings ops).isOk
       (if own || (inner.isEmpty && missingChild.isEmpty) then [path] else []) ++ inner ++ missingChild
     | .map (.mk en (.struct (.cons (.mk kn kdt knl kmd) (.cons (.mk vn vdt vnl vmd) _))) _ _) _ =>
-      let base := path ++ "." ++ childName en
-      let inner := blameOpsMap ext (base ++ "." ++ childName kn) kdt knl kmd (base ++ "." ++ childName vn) vdt vnl vmd ops
+      let base := path ++ "." ++ segName en
+      let inner := blameOpsMap ext (base ++ "." ++ segName kn) kdt knl kmd (base ++ "." ++ segName vn) vdt vnl vmd ops
       if inner.isEmpty then [path] else inner
     | _ => [path]
   | .newtypeVariant n i vn v =>
@@ -144,7 +153,7 @@ def blameDT (ext : Ext) (path : String) (dt : DataType) (nullable : Bool) (md : 
     | .union fs _ =>
       match fs.toList[i]? with
       | some (_, .mk cn cdt cnl cmd) =>
-        let inner := blameDT ext (path ++ "." ++ childName cn) cdt cnl cmd v
+        let inner := blameDT ext (path ++ "." ++ segName cn) cdt cnl cmd v
         if inner.isEmpty then [path] else inner
       | none => [path]
     | _ => [path]
@@ -154,7 +163,7 @@ def blameDT (ext : Ext) (path : String) (dt : DataType) (nullable : Bool) (md : 
     | .union fs _ =>
       match fs.toList[i]? with
       | some (_, .mk cn (.struct cfs) _ _) =>
-        let p := path ++ "." ++ childName cn
+        let p := path ++ "." ++ segName cn
         let keys := positionalKeys cfs.toList xs.length
         let inner := blameNth ext p cfs.toList xs
         let missingChild := blameMissing p cfs.toList keys
@@ -164,15 +173,15 @@ def blameDT (ext : Ext) (path : String) (dt : DataType) (nullable : Bool) (md : 
       -- the blame is the blame of the tuple AT the variant's column — inside the elements when one of them fails,
       -- never the column (an ancestor) for an element's failure
       | some (_, .mk cn (.list (.mk en edt enl emd)) _ _) | some (_, .mk cn (.largeList (.mk en edt enl emd)) _ _) =>
-        let p := path ++ "." ++ childName cn
-        let inner := blameAll ext (p ++ "." ++ childName en) edt enl emd xs
+        let p := path ++ "." ++ segName cn
+        let inner := blameAll ext (p ++ "." ++ segName en) edt enl emd xs
         if inner.isEmpty then [p] else inner
       | some (_, .mk cn (.fixedSizeList (.mk en edt enl emd) k) _ _) =>
-        let p := path ++ "." ++ childName cn
-        let inner := blameAll ext (p ++ "." ++ childName en) edt enl emd xs
+        let p := path ++ "." ++ segName cn
+        let inner := blameAll ext (p ++ "." ++ segName en) edt enl emd xs
         let own := (xs.length : Int) != k
         (if own || inner.isEmpty then [p] else []) ++ inner
-      | some (_, .mk cn _ _ _) => [path ++ "." ++ childName cn, path]
+      | some (_, .mk cn _ _ _) => [path ++ "." ++ segName cn, path]
       | none => [path]
     | _ => [path]
   | .structVariant n i vn fields =>
@@ -181,13 +190,13 @@ def blameDT (ext : Ext) (path : String) (dt : DataType) (nullable : Bool) (md : 
     | .union fs _ =>
       match fs.toList[i]? with
       | some (_, .mk cn (.struct cfs) _ _) =>
-        let p := path ++ "." ++ childName cn
+        let p := path ++ "." ++ segName cn
         let keys := fieldKeys fields
         let inner := blameFields ext p cfs.toList fields
         let missingChild := blameMissing p cfs.toList keys
         let own := structOwnFails cfs.toList keys
         (if own || (inner.isEmpty && missingChild.isEmpty) then [p] else []) ++ inner ++ missingChild
-      | some (_, .mk cn _ _ _) => [path ++ "." ++ childName cn, path]
+      | some (_, .mk cn _ _ _) => [path ++ "." ++ segName cn, path]
       | none => [path]
     | _ => [path]
   | .unitVariant n i vn =>
@@ -195,7 +204,7 @@ def blameDT (ext : Ext) (path : String) (dt : DataType) (nullable : Bool) (md : 
     match dt with
     | .union fs _ =>
       match fs.toList[i]? with
-      | some (_, .mk cn _ _ _) => [path ++ "." ++ childName cn]      -- the variant's column refuses `unit`
+      | some (_, .mk cn _ _ _) => [path ++ "." ++ segName cn]      -- the variant's column refuses `unit`
       | none => [path]
     | _ => blameScalarAt ext path dt (.unitVariant n i vn)    -- string columns take the variant's name
   | .bytes b =>
@@ -203,7 +212,7 @@ def blameDT (ext : Ext) (path : String) (dt : DataType) (nullable : Bool) (md : 
     match dt with
     -- `ListBuilder::serialize_bytes`: every byte is an element, presented as `serialize_u8`
     | .list (.mk cn cdt _ _) | .largeList (.mk cn cdt _ _) =>
-      blameScalarAt ext (path ++ "." ++ childName cn) cdt (.int .u8 0) ++ [path]
+      blameScalarAt ext (path ++ "." ++ segName cn) cdt (.int .u8 0) ++ [path]
     | _ => [path]
   | x => if (interpDT ext dt nullable md x).isOk then [] else blameScalarAt ext path dt x
 
@@ -227,7 +236,7 @@ def blameFields (ext : Ext) (path : String) (fs : List Field) : SFields → List
 def blameEntriesStruct (ext : Ext) (path : String) (fs : List Field) : SEntries → List String
   | .nil => []
   | .cons k x rest =>
-    (match (keyStr k).toOption.bind (fun key => fs.find? (·.name == key)) with
+    (match (keyOf k).bind (fun key => fs.find? (·.name == key)) with
       | some (.mk n dt nl md) => blameDT ext (path ++ "." ++ n) dt nl md x
       | none => []) ++ blameEntriesStruct ext path fs rest
 
@@ -239,7 +248,7 @@ def blameEntriesMap (ext : Ext) (kp : String) (kdt : DataType) (knl : Bool) (kmd
 
 def blameOpsStruct (ext : Ext) (path : String) (fs : List Field) : SMapOps → List String
   | .key k (.value x rest) =>
-    (match (keyStr k).toOption.bind (fun key => fs.find? (·.name == key)) with
+    (match (keyOf k).bind (fun key => fs.find? (·.name == key)) with
       | some (.mk n dt nl md) => blameDT ext (path ++ "." ++ n) dt nl md x
       | none => []) ++ blameOpsStruct ext path fs rest
   | _ => []
@@ -251,7 +260,7 @@ def blameOpsMap (ext : Ext) (kp : String) (kdt : DataType) (knl : Bool) (kmd : M
   | _ => []
 
 def opsKeys : SMapOps → List String
-  | .key k (.value _ rest) => (match keyStr k with | .ok s => [s] | .error _ => []) ++ opsKeys rest
+  | .key k (.value _ rest) => (match keyOf k with | some s => [s] | none => []) ++ opsKeys rest
   | _ => []
 
 def fieldKeys : SFields → List String
@@ -260,7 +269,7 @@ def fieldKeys : SFields → List String
 
 def entryKeys : SEntries → List String
   | .nil => []
-  | .cons k _ rest => (match keyStr k with | .ok s => [s] | .error _ => []) ++ entryKeys rest
+  | .cons k _ rest => (match keyOf k with | some s => [s] | none => []) ++ entryKeys rest
 end
 
 /-- positions an error about row `x` may name -/
@@ -317,13 +326,13 @@ def blameEntriesR (fk fv : LVal → List RPos) : LEntries → List RPos
 
 /-- every field of the struct as a map entry: the value through `f`, below the field's name -/
 def blameStructAsMap (f : Arr → LVal → List RPos) : ArrFields → LFields → List RPos
-  | .cons fm a rest, .cons _ lv lrest => below [childName fm.name] (f a lv) ++ blameStructAsMap f rest lrest
+  | .cons fm a rest, .cons _ lv lrest => below [segName fm.name] (f a lv) ++ blameStructAsMap f rest lrest
   | _, _ => []
 
 /-- the column fields called `n`, each through `f` -/
 def blameNamed (f : Arr → LVal → List RPos) (n : String) : ArrFields → LFields → List RPos
   | .cons fm a rest, .cons _ lv lrest =>
-    (if fm.name == n then below [childName fm.name] (f a lv) else []) ++ blameNamed f n rest lrest
+    (if fm.name == n then below [segName fm.name] (f a lv) else []) ++ blameNamed f n rest lrest
   | _, _ => []
 
 /-- a non-`Option` target field without a column field of its name -/
@@ -357,8 +366,8 @@ def blameRead : Target → Arr → LVal → List RPos
   | .newtype t, a, lv => blameRead t a lv
   | .seq t, a, lv =>
     match a, lv with
-    | .list _ _ _ fm el, .list items => below [childName fm.name] (blameVals (fun v => blameRead t el v) items)
-    | .fixedSizeList _ _ _ fm el, .list items => below [childName fm.name] (blameVals (fun v => blameRead t el v) items)
+    | .list _ _ _ fm el, .list items => below [segName fm.name] (blameVals (fun v => blameRead t el v) items)
+    | .fixedSizeList _ _ _ fm el, .list items => below [segName fm.name] (blameVals (fun v => blameRead t el v) items)
     | a, lv => if Claim.isMust (cast (.seq t) a lv) then [] else here a
   | .tuple ts, a, lv => blameTupleAt ts.length (fun fs lfs => blameTuple ts fs lfs) a lv
   | .tupleStruct ts, a, lv => blameTupleAt ts.length (fun fs lfs => blameTuple ts fs lfs) a lv
@@ -369,8 +378,8 @@ def blameRead : Target → Arr → LVal → List RPos
        | .string | .any => []
        | _ => here a) ++ blameStructAsMap (fun c w => blameRead v c w) fs lfs
     | .map _ _ mm ks vs, .map es =>
-      blameEntriesR (fun w => below [childName mm.entriesName, childName mm.keys.name] (blameRead k ks w))
-        (fun w => below [childName mm.entriesName, childName mm.values.name] (blameRead v vs w)) es
+      blameEntriesR (fun w => below [segName mm.entriesName, segName mm.keys.name] (blameRead k ks w))
+        (fun w => below [segName mm.entriesName, segName mm.values.name] (blameRead v vs w)) es
     | a, _ => here a
   | .struct tfs, a, lv => blameStructAt tfs (fun fs lfs => blameFieldsR tfs fs lfs) a lv
   | .enum byIndex vs, a, lv =>
@@ -379,7 +388,7 @@ def blameRead : Target → Arr → LVal → List RPos
       (match ArrUFields.findId fs t with
        | none => here a
        | some (fm, child) =>
-         blameVariant vs (if byIndex then some t.toNat else none) fm.name (here a) (childName fm.name) child v)
+         blameVariant vs (if byIndex then some t.toNat else none) fm.name (here a) (segName fm.name) child v)
     | a, lv => if Claim.isMust (cast (.enum byIndex vs) a lv) then [] else here a
   | .unit, a, lv => blameScalar .unit a lv
   | .unitStruct, a, lv => blameScalar .unitStruct a lv
@@ -394,12 +403,12 @@ def blameRead : Target → Arr → LVal → List RPos
   | .byteBuf, a, lv =>
     match a, lv with
     | .list _ _ _ fm el, .list items =>     -- `ByteBuf` from a list column: every element as `u8`
-      below [childName fm.name] (blameVals (fun v => blameScalar (.int .u8) el v) items)
+      below [segName fm.name] (blameVals (fun v => blameScalar (.int .u8) el v) items)
     | a, lv => blameScalar .byteBuf a lv
 /-- element `k` from field `k` -/
 def blameTuple : Targets → ArrFields → LFields → List RPos
   | .cons t rest, .cons fm a frest, .cons _ v lrest =>
-    below [childName fm.name] (blameRead t a v) ++ blameTuple rest frest lrest
+    below [segName fm.name] (blameRead t a v) ++ blameTuple rest frest lrest
   | _, _, _ => []
 /-- every target field from the column fields of its name -/
 def blameFieldsR : TFields → ArrFields → LFields → List RPos
